@@ -201,4 +201,37 @@ def run(ctx):
                 sq_true.append((path, c))
     only = {p for p, _ in sq_true} == {CST} and all(const_int(c.args[3]) == 1 for _, c in sq_true)
     run.inst("C15.S3", "squashed-only-for-spherical-triangle", only, "squashed face triangles are requested by %s" % sorted({p.split("::")[-1] for p, _ in sq_true}))
+    # S4: closed-form shortcuts are continuous where they switch: both formulas of a threshold-guarded helper agree at the threshold
+    from ..query import feval, Undetermined as _U, returns_under as _ru, regime_assumptions as _ra, deep_resolve as _dr
+    from ..terms import const_float as _cf
+    SA = "a5::projections::polyhedral::PolyhedralProjection::safe_acos"
+    if SA not in facts.fns:
+        run.missing("C15.S4", SA)
+    else:
+        fs = fn_terms(facts, SA)
+        sw = []
+        for b in sorted(fs.cfg.reach):
+            t = fs.blocks[b]["term"]
+            if t["k"] == "switch":
+                d = fs.switch_term(b)
+                if d[0] == "bin" and d[1] in ("Lt", "Le", "Gt", "Ge") and d[2] == ("param", 2) and _cf(d[3]) is not None:
+                    sw.append((d, _cf(d[3])))
+        if len(sw) != 1:
+            run.bad("C15.S4", "safe_acos-continuity", "expected one threshold test on the argument, found %d - unrecognised idiom, cannot decide" % len(sw), where(fs.fn["span"]))
+        else:
+            d, thr = sw[0]
+            vals = []
+            try:
+                for tv in (0, 1):
+                    A = {strip_site(d): tv}
+                    rs = [_dr(fs, r, A) for r in _ru(fs, A)]
+                    if len(rs) != 1:
+                        raise _U("several formulas")
+                    vals.append(feval(rs[0], {("param", 2): thr}))
+                diff = abs(vals[0] - vals[1])
+                run.inst("C15.S4", "safe_acos-continuity", diff <= 1e-13 and 1e-4 <= thr <= 1e-2,
+                         "at the switch point x = %g the two formulas give %.17g and %.17g (difference %.2e, limit 1e-13: three orders below the 1e-12 round-trip bound; the threshold must stay where the exact formula still has 13 good digits)" % (thr, vals[0], vals[1], diff),
+                         where(fs.fn["span"]))
+            except _U as e:
+                run.bad("C15.S4", "safe_acos-continuity", "cannot evaluate the branch formulas (%s) - unrecognised idiom" % e, where(fs.fn["span"]))
     run.floor("C15", "rule instances", len(run.instances), 18)
